@@ -89,6 +89,7 @@ type c06payload struct {
 	Attrs map[string]string `json:"attrs"` // attribute name -> raw JSON value text
 	Rels  map[string]string `json:"rels"`  // relationship name -> raw JSON text of its data member ("" = no data member)
 	Extra bool              `json:"extra_members"`
+	Meta  string            `json:"meta,omitempty"` // raw JSON text of a resource-level meta member
 }
 
 func (p *c06payload) bytes() []byte {
@@ -129,7 +130,13 @@ func (p *c06payload) bytes() []byte {
 		sb.WriteString("}")
 	}
 	if p.Extra {
-		sb.WriteString(`,"links":{"self":"/t/1"},"meta":{"m":true}`)
+		sb.WriteString(`,"links":{"self":"/t/1"}`)
+		if p.Meta == "" {
+			sb.WriteString(`,"meta":{"m":true}`)
+		}
+	}
+	if p.Meta != "" {
+		sb.WriteString(`,"meta":` + p.Meta)
 	}
 	sb.WriteString("}")
 	return []byte(sb.String())
